@@ -174,7 +174,7 @@ def attribute(gen, d, fnr):
     # secondary span often says where (which return / which call)
     sec = [norm(text[s["byte_start"]:s["byte_end"]], 60) for s in spans if not s.get("is_primary")]
     return {"fn": fname, "item": item, "kind": d.get("message", ""), "clause": clause, "where": where, "at": sec[:2],
-            "line": sp.get("line_start"), "rendered": d.get("rendered", "")}
+            "line": sp.get("line_start"), "rendered": d.get("rendered", ""), "span": (sp["byte_start"], sp["byte_end"])}
 
 
 def count_clauses(text):
@@ -233,6 +233,8 @@ class UnitResult:
         self.twin_expected = 0
         self.twin_hit = 0
         self.trusted = []
+        self.hints_dropped = []
+        self.note = ""
         self.changed_items = []
         self.mutants = []  # (label, fn, killed?)
         self.prelude_fns = 0
@@ -497,6 +499,40 @@ def process_unit(unit, tier, keep=False, verbose=False, seed=0):
         r.status = "violation"
     elif not vres.get("success"):
         r.status, r.reason = "undecided", "verus reported failure without diagnostics"
+    # ---- proof hints are not obligations.  Templates splice two kinds of `assert`: OBLIGATIONS (tagged `// Cnn` or
+    # `// obligation` on their line: something the property demands inside a body) and HINTS that only help the solver
+    # reach a postcondition.  If the ONLY failures are hints, the text is re-verified with exactly those hints neutralised
+    # (`assert(true)`): if every contract clause still verifies, the property holds on this code and nothing is reported
+    # (a hint that no longer fits a harmless refactor is not an alarm); otherwise the failures of that second run --
+    # contract clauses -- are what is reported.
+    if r.status == "violation":
+        def is_hint(f):
+            if not f.get("kind", "").startswith("assertion failed") or f.get("where") not in ("annotation", "prelude") or not f.get("span"):
+                return False
+            b, e = f["span"]
+            line_end = gen["text"].find("\n", e)
+            line = gen["text"][gen["text"].rfind("\n", 0, b) + 1: line_end if line_end >= 0 else len(gen["text"])]
+            return not re.search(r"//.*\b(C\d\d\b|obligation)", line)
+        hints = [f for f in r.failures if is_hint(f)]
+        if hints and len(hints) == len(r.failures) and all(f["span"][1] - f["span"][0] >= 4 for f in hints):
+            txt = gen["text"]
+            for (b, e) in sorted({tuple(f["span"]) for f in hints}, reverse=True):
+                txt = txt[:b] + "true" + " " * ((e - b) - 4) + txt[e:]      # same length: offsets of regions stay valid
+            hp = os.path.join(bdir, f"{unit}_nohints.rs")
+            with open(hp, "w") as fh:
+                fh.write(txt)
+            vh = run_verus(hp, extra)
+            g2 = dict(gen, text=txt)
+            f2 = [attribute(g2, d, fn_ranges(txt)) for d in vh["diags"] if classify_diag(d) == "verif"]
+            t2 = [d for d in vh["diags"] if classify_diag(d) == "tool"]
+            r.hints_dropped = [obligation_id(unit, f) for f in hints]
+            if vh["json"] and not t2 and not f2 and vh["json"].get("verification-results", {}).get("success"):
+                r.status, r.failures = "ok", []
+                r.verified = vh["json"]["verification-results"].get("verified", r.verified)
+                r.errors = 0
+                r.note = "proof hints no longer provable but every contract clause verifies without them: " + "; ".join(r.hints_dropped)[:400]
+            elif f2:
+                r.failures = f2          # the contract clauses that fail once the hints are out of the way
     # ---- vacuity guards (also when the only failures are recorded findings)
     known_all0 = {k["obligation"] for k in load_known().get("findings", [])}
     ids0 = {obligation_id(unit, f) for f in r.failures}
@@ -755,7 +791,7 @@ def cmd_run(a):
             "units": [{"unit": r.unit, "status": r.status, "reason": r.reason, "functions_verified": r.verified, "verus_errors": r.errors,
                        "explicit_clauses": r.explicit, "solver_ms": r.solver_ms, "wall_s": round(r.wall, 2), "backend": "verus-z3",
                        "vacuity_twin": {"splices": r.twin_expected, "refuted": r.twin_hit},
-                       "changed_vs_baseline": r.changed_items} for r in results],
+                       "changed_vs_baseline": r.changed_items, "proof_hints_dropped": getattr(r, "hints_dropped", []), "note": getattr(r, "note", "")} for r in results],
             "functions_under_contract": fn_list,
             "samples": samples or [{"note": "no contract could be rendered (extraction failed)"}],
             "negative_controls": mutants,
@@ -772,6 +808,9 @@ def cmd_run(a):
     }
     with open(evp, "w") as f:
         json.dump(ev, f, indent=1)
+    for r in results:
+        if getattr(r, "note", ""):
+            print(f"NOTE unit={r.unit} {r.note}")
     for l in known_lines:
         print(l)
     for l in und_lines:
